@@ -223,6 +223,10 @@ def check_case(case) -> Obs:
             else:
                 wells = [f"{'ABCDEFGH'[i]}01" for i in range(ntips)]
             vols = [10.0 + i for i in range(ntips)]
+            if valid and distinct and ntips >= 2 and (sum(nums) + ntips) % 3 == 0:
+                # a selected tip may have nothing to do in this step (0 uL, or less than half a hundredth): it stays selected
+                vols[(sum(nums)) % ntips] = 0.0 if sum(nums) % 2 else 0.004
+                obs.cls("evo-zero-volume-tip")
             for name in ("evo_aspirate", "evo_dispense"):
                 wl = robotools.EvoWorklist()
                 obs.units += 1
